@@ -79,8 +79,14 @@ Definition way_of (b : block_d) (w : way_d) : way :=
   mkWay (wd_id w) (meta b (wd_hasinfo w) (wd_fields w) (wd_info w)) (tags_of b (wd_tags w))
         (wnodes_of b (wd_haslocs w) (wd_refs w) (wd_lats w) (wd_lons w)).
 
+(* The member type column is an enum {NODE = 0, WAY = 1, RELATION = 2} stored as int32.  A value
+   outside the enum (a newer writer, a damaged file) is not an error of the format: the member
+   is still a member, it just has no known type (-1, osm.Type "").  First-class in the
+   description since round 3 (a stale type from an earlier, rejected relation is not "no type"). *)
+Definition mtype_meaning (t : Z) : Z := if (0 <=? t) && (t <=? 2) then t else -1.
+
 Definition member_of (b : block_d) (m : member_d) : member :=
-  mkMem (md_type m) (md_ref m) (str b (md_role m)).
+  mkMem (mtype_meaning (md_type m)) (md_ref m) (str b (md_role m)).
 
 Definition rel_of (b : block_d) (r : rel_d) : relation :=
   mkRel (rd_id r) (meta b (rd_hasinfo r) (rd_fields r) (rd_info r)) (tags_of b (rd_tags r))
@@ -214,7 +220,7 @@ Definition way_ok (b : block_d) (w : way_d) : bool :=
        && forallb (coord_ok (blonoff b) (bgran b)) (wd_lons w))).
 
 Definition member_ok (b : block_d) (m : member_d) : bool :=
-  (0 <=? md_type m) && (md_type m <=? 2) && in64 (md_ref m) && sid_ok b (md_role m).
+  in32 (md_type m) && in64 (md_ref m) && sid_ok b (md_role m).
 
 Definition rel_ok (b : block_d) (r : rel_d) : bool :=
   in64 (rd_id r) && info_ok b (rd_hasinfo r) (rd_fields r) (rd_info r) && tags_ok b false (rd_tags r)
